@@ -67,6 +67,10 @@ _OOO_NAMESPACES = {
 }
 _NUMBER_COLUMNS_REPEATED = "{" + _OOO_NAMESPACES["table"] + "}number-columns-repeated"
 _NUMBER_ROWS_REPEATED = "{" + _OOO_NAMESPACES["table"] + "}number-rows-repeated"
+_TABLE_ROW = "{" + _OOO_NAMESPACES["table"] + "}table-row"
+_TABLE_ROW_CONTAINERS = tuple(
+    "{" + _OOO_NAMESPACES["table"] + "}" + name for name in ("table-header-rows", "table-row-group", "table-rows")
+)
 _TEXT_C = "{" + _OOO_NAMESPACES["text"] + "}c"
 _TEXT_LINE_BREAK = "{" + _OOO_NAMESPACES["text"] + "}line-break"
 _TEXT_S = "{" + _OOO_NAMESPACES["text"] + "}s"
@@ -286,6 +290,20 @@ def _ods_text(element, location):
     return "".join(parts)
 
 
+def _ods_table_rows(table_element):
+    """
+    The ``table:table-row`` elements of ``table_element`` in the order of the document, including the ones that
+    are grouped in ``table:table-header-rows`` (rows to repeat when printing), ``table:table-row-group`` (outline
+    groups, possibly nested) or ``table:table-rows``.
+    """
+    for child_element in table_element:
+        if child_element.tag == _TABLE_ROW:
+            yield child_element
+        elif child_element.tag in _TABLE_ROW_CONTAINERS:
+            for table_row in _ods_table_rows(child_element):
+                yield table_row
+
+
 def ods_rows(source_ods_path, sheet=1):
     """
     Rows stored in ODS document ``source_ods_path`` in ``sheet``. Empty rows
@@ -339,7 +357,7 @@ def ods_rows(source_ods_path, sheet=1):
     # Rows (and how often to repeat them) not yielded yet. Empty rows are held back until a non empty row
     # follows in order to skip the huge runs of empty rows spreadsheet applications pad sheets with.
     pending_rows = []
-    for table_row in _findall(table_element, "table:table-row", namespaces=_OOO_NAMESPACES):
+    for table_row in _ods_table_rows(table_element):
         row_repeated_count = _ods_repeat_count(table_row, _NUMBER_ROWS_REPEATED, location)
         row = []
         for table_cell in _findall(table_row, "table:table-cell", namespaces=_OOO_NAMESPACES):
